@@ -267,4 +267,323 @@ def ListOfDicts_to_string_signature : List String := ["self", "*", "max_items=No
 /-- the calls of dataiter/list_of_dicts.py: ListOfDicts.to_string in the order Python makes them along the source text -/
 def ListOfDicts_to_string_call_order : List String := ["self.head", "self.head(max_items).to_json", "len", "len"]
 
+/-- dataiter/data_frame.py: DataFrame.__repr__ (sha256 of the function source: 9bfe44df73a572c4) -/
+def DataFrame_repr (truth : Term → Bool) : Out :=
+  Out.ret [] (Term.app ".to_string" [(Term.sym "self")])
+
+/-- the decorators of dataiter/data_frame.py: DataFrame.__repr__, outermost first -/
+def DataFrame_repr_decorators : List String := []
+
+/-- the signature of dataiter/data_frame.py: DataFrame.__repr__: parameters in order, with the source text of their defaults -/
+def DataFrame_repr_signature : List String := ["self"]
+
+/-- the calls of dataiter/data_frame.py: DataFrame.__repr__ in the order Python makes them along the source text -/
+def DataFrame_repr_call_order : List String := ["self.to_string"]
+
+/-- dataiter/data_frame.py: DataFrame.__str__ (sha256 of the function source: 611ecb642c6e3656) -/
+def DataFrame_str (truth : Term → Bool) : Out :=
+  Out.ret [] (Term.app ".to_string" [(Term.sym "self")])
+
+/-- the decorators of dataiter/data_frame.py: DataFrame.__str__, outermost first -/
+def DataFrame_str_decorators : List String := []
+
+/-- the signature of dataiter/data_frame.py: DataFrame.__str__: parameters in order, with the source text of their defaults -/
+def DataFrame_str_signature : List String := ["self"]
+
+/-- the calls of dataiter/data_frame.py: DataFrame.__str__ in the order Python makes them along the source text -/
+def DataFrame_str_call_order : List String := ["self.to_string"]
+
+/-- dataiter/data_frame.py: DataFrame.print_ (sha256 of the function source: c6b5fbf47b4cf4f3) -/
+def DataFrame_print (truth : Term → Bool) : Out :=
+  let eff0 : Term := (Term.app "print" [(Term.app ".to_string" [(Term.sym "self"), (Term.app "=max_rows" [(Term.sym "max_rows")]), (Term.app "=max_width" [(Term.sym "max_width")]), (Term.app "=truncate_width" [(Term.sym "truncate_width")])])]);
+  Out.fall [eff0]
+
+/-- the decorators of dataiter/data_frame.py: DataFrame.print_, outermost first -/
+def DataFrame_print_decorators : List String := []
+
+/-- the signature of dataiter/data_frame.py: DataFrame.print_: parameters in order, with the source text of their defaults -/
+def DataFrame_print_signature : List String := ["self", "*", "max_rows=None", "max_width=None", "truncate_width=None"]
+
+/-- the calls of dataiter/data_frame.py: DataFrame.print_ in the order Python makes them along the source text -/
+def DataFrame_print_call_order : List String := ["self.to_string", "print"]
+
+/-- dataiter/data_frame.py: DataFrame.print_memory_use (sha256 of the function source: bb19e82eea644a9c) -/
+def DataFrame_print_memory_use (truth : Term → Bool) : Out :=
+  let mem' : Term := (Term.app "DataFrame" []);
+  let eff0 : Term := (Term.app "for" [(Term.app "tuple" [(Term.sym "name"), (Term.sym "column")]), (Term.app ".items" [(Term.sym "self")]), (Term.app "block" [(Term.app "assign" [(Term.sym "new"), (Term.app "DataFrame" [(Term.app "=column" [(Term.sym "name")])])]), (Term.app "store" [(Term.app ".dtype" [(Term.sym "new")]), (Term.app "str" [(Term.app ".dtype" [(Term.sym "column")])])]), (Term.app "store" [(Term.app ".item_size" [(Term.sym "new")]), (Term.app ".itemsize" [(Term.sym "column")])]), (Term.app "store" [(Term.app ".total_size" [(Term.sym "new")]), (Term.app ".get_memory_use" [(Term.sym "column")])]), (Term.app "assign" [(Term.sym "mem"), (Term.app ".rbind" [(Term.sym "mem"), (Term.sym "new")])])]), (Term.app "init" [(Term.sym "mem"), mem'])]);
+  let new' : Term := (Term.app "value-after-loop" [(Term.sym "new"), eff0]);
+  let mem' : Term := (Term.app "value-after-loop" [(Term.sym "mem"), eff0]);
+  let new' : Term := (Term.app "DataFrame" [(Term.app "=column" [(Term.sym "'TOTAL'")])]);
+  let attr1_1' : Term := (Term.sym "'--'");
+  let eff1 : Term := (Term.app "setattr" [new', (Term.sym "dtype"), attr1_1']);
+  let attr2_1' : Term := (Term.app ".sum" [(Term.app ".item_size" [mem'])]);
+  let eff2 : Term := (Term.app "setattr" [new', (Term.sym "item_size"), attr2_1']);
+  let attr3_1' : Term := (Term.app ".sum" [(Term.app ".total_size" [mem'])]);
+  let eff3 : Term := (Term.app "setattr" [new', (Term.sym "total_size"), attr3_1']);
+  let mem' : Term := (Term.app ".rbind" [mem', new']);
+  let attr4_1' : Term := (Term.app "ListComp" [(Term.app "fstring" [(Term.app "format" [(Term.sym "x"), (Term.sym "f'.0f'"), (Term.int (-1 : Int))]), (Term.sym "' B'")]), (Term.app "in" [(Term.sym "x"), (Term.app ".item_size" [mem']), (Term.app "if" [])])]);
+  let eff4 : Term := (Term.app "setattr" [mem', (Term.sym "item_size"), attr4_1']);
+  let attr5_1' : Term := (Term.app "ListComp" [(Term.app "fstring" [(Term.app "format" [(Term.app "Div" [(Term.sym "x"), (Term.app "Pow" [(Term.int (1024 : Int)), (Term.int (2 : Int))])]), (Term.sym "f',.0f'"), (Term.int (-1 : Int))]), (Term.sym "' MB'")]), (Term.app "in" [(Term.sym "x"), (Term.app ".total_size" [mem']), (Term.app "if" [])])]);
+  let eff5 : Term := (Term.app "setattr" [mem', (Term.sym "total_size"), attr5_1']);
+  let attr6_1' : Term := (Term.app "ListComp" [(Term.app ".upper" [(Term.sym "x")]), (Term.app "in" [(Term.sym "x"), (Term.app ".colnames" [mem']), (Term.app "if" [])])]);
+  let eff6 : Term := (Term.app "setattr" [mem', (Term.sym "colnames"), attr6_1']);
+  let eff7 : Term := (Term.app "print" [mem']);
+  Out.fall [eff0, eff1, eff2, eff3, eff4, eff5, eff6, eff7]
+
+/-- the decorators of dataiter/data_frame.py: DataFrame.print_memory_use, outermost first -/
+def DataFrame_print_memory_use_decorators : List String := []
+
+/-- the signature of dataiter/data_frame.py: DataFrame.print_memory_use: parameters in order, with the source text of their defaults -/
+def DataFrame_print_memory_use_signature : List String := ["self"]
+
+/-- the calls of dataiter/data_frame.py: DataFrame.print_memory_use in the order Python makes them along the source text -/
+def DataFrame_print_memory_use_call_order : List String := ["DataFrame", "self.items", "DataFrame", "str", "column.get_memory_use", "mem.rbind", "DataFrame", "mem.item_size.sum", "mem.total_size.sum", "mem.rbind", "x.upper", "print"]
+
+/-- dataiter/data_frame.py: DataFrame.print_na_counts (sha256 of the function source: ebd027dc8b809943) -/
+def DataFrame_print_na_counts (truth : Term → Bool) : Out :=
+  let nas' : Term := (Term.app "DataFrame" []);
+  let eff0 : Term := (Term.app "for" [(Term.sym "name"), (Term.app ".colnames" [(Term.sym "self")]), (Term.app "block" [(Term.app "assign" [(Term.sym "n"), (Term.app ".sum" [(Term.app ".is_na" [(Term.app "getitem" [(Term.sym "self"), (Term.sym "name")])])])]), (Term.app "if" [(Term.app "Eq" [(Term.sym "n"), (Term.int (0 : Int))]), (Term.app "block" [(Term.sym "continue")]), (Term.app "block" [])]), (Term.app "assign" [(Term.sym "nas"), (Term.app ".rbind" [(Term.sym "nas"), (Term.app "DataFrame" [(Term.app "=column" [(Term.sym "name")]), (Term.app "=nna" [(Term.sym "n")])])])])]), (Term.app "init" [(Term.sym "nas"), nas'])]);
+  let n' : Term := (Term.app "value-after-loop" [(Term.sym "n"), eff0]);
+  let nas' : Term := (Term.app "value-after-loop" [(Term.sym "nas"), eff0]);
+  if (!truth nas') then
+    Out.ret [eff0] (Term.sym "None")
+  else
+    let attr1_2' : Term := (Term.app "ListComp" [(Term.app "fstring" [(Term.app "format" [(Term.app "Div" [(Term.app "Mult" [(Term.int (100 : Int)), (Term.sym "x")]), (Term.app ".nrow" [(Term.sym "self")])]), (Term.sym "f'.1f'"), (Term.int (-1 : Int))]), (Term.sym "'%'")]), (Term.app "in" [(Term.sym "x"), (Term.app ".nna" [nas']), (Term.app "if" [])])]);
+    let eff1 : Term := (Term.app "setattr" [nas', (Term.sym "pna"), attr1_2']);
+    let attr2_2' : Term := (Term.app "ListComp" [(Term.app ".upper" [(Term.sym "x")]), (Term.app "in" [(Term.sym "x"), (Term.app ".colnames" [nas']), (Term.app "if" [])])]);
+    let eff2 : Term := (Term.app "setattr" [nas', (Term.sym "colnames"), attr2_2']);
+    let eff3 : Term := (Term.app "print" [nas']);
+    Out.fall [eff0, eff1, eff2, eff3]
+
+/-- the decorators of dataiter/data_frame.py: DataFrame.print_na_counts, outermost first -/
+def DataFrame_print_na_counts_decorators : List String := []
+
+/-- the signature of dataiter/data_frame.py: DataFrame.print_na_counts: parameters in order, with the source text of their defaults -/
+def DataFrame_print_na_counts_signature : List String := ["self"]
+
+/-- the calls of dataiter/data_frame.py: DataFrame.print_na_counts in the order Python makes them along the source text -/
+def DataFrame_print_na_counts_call_order : List String := ["DataFrame", "self[name].is_na", "self[name].is_na().sum", "DataFrame", "nas.rbind", "x.upper", "print"]
+
+/-- dataiter/list_of_dicts.py: ListOfDicts.__repr__ (sha256 of the function source: 9bfe44df73a572c4) -/
+def ListOfDicts_repr (truth : Term → Bool) : Out :=
+  Out.ret [] (Term.app ".to_string" [(Term.sym "self")])
+
+/-- the decorators of dataiter/list_of_dicts.py: ListOfDicts.__repr__, outermost first -/
+def ListOfDicts_repr_decorators : List String := []
+
+/-- the signature of dataiter/list_of_dicts.py: ListOfDicts.__repr__: parameters in order, with the source text of their defaults -/
+def ListOfDicts_repr_signature : List String := ["self"]
+
+/-- the calls of dataiter/list_of_dicts.py: ListOfDicts.__repr__ in the order Python makes them along the source text -/
+def ListOfDicts_repr_call_order : List String := ["self.to_string"]
+
+/-- dataiter/list_of_dicts.py: ListOfDicts.__str__ (sha256 of the function source: 611ecb642c6e3656) -/
+def ListOfDicts_str (truth : Term → Bool) : Out :=
+  Out.ret [] (Term.app ".to_string" [(Term.sym "self")])
+
+/-- the decorators of dataiter/list_of_dicts.py: ListOfDicts.__str__, outermost first -/
+def ListOfDicts_str_decorators : List String := []
+
+/-- the signature of dataiter/list_of_dicts.py: ListOfDicts.__str__: parameters in order, with the source text of their defaults -/
+def ListOfDicts_str_signature : List String := ["self"]
+
+/-- the calls of dataiter/list_of_dicts.py: ListOfDicts.__str__ in the order Python makes them along the source text -/
+def ListOfDicts_str_call_order : List String := ["self.to_string"]
+
+/-- dataiter/list_of_dicts.py: ListOfDicts.print_ (sha256 of the function source: bb8359935940bcf8) -/
+def ListOfDicts_print (truth : Term → Bool) : Out :=
+  let eff0 : Term := (Term.app "print" [(Term.app ".to_string" [(Term.sym "self"), (Term.app "=max_items" [(Term.sym "max_items")])])]);
+  Out.fall [eff0]
+
+/-- the decorators of dataiter/list_of_dicts.py: ListOfDicts.print_, outermost first -/
+def ListOfDicts_print_decorators : List String := []
+
+/-- the signature of dataiter/list_of_dicts.py: ListOfDicts.print_: parameters in order, with the source text of their defaults -/
+def ListOfDicts_print_signature : List String := ["self", "*", "max_items=None"]
+
+/-- the calls of dataiter/list_of_dicts.py: ListOfDicts.print_ in the order Python makes them along the source text -/
+def ListOfDicts_print_call_order : List String := ["self.to_string", "print"]
+
+/-- dataiter/list_of_dicts.py: ListOfDicts.print_memory_use (sha256 of the function source: 2bfddd9d16c901c0) -/
+def ListOfDicts_print_memory_use (truth : Term → Bool) : Out :=
+  let mem' : Term := (Term.app "DataFrame" []);
+  let eff0 : Term := (Term.app "for" [(Term.sym "key"), (Term.app ".keys" [(Term.sym "self")]), (Term.app "block" [(Term.app "assign" [(Term.sym "new"), (Term.app "DataFrame" [(Term.app "=key" [(Term.sym "key")])])]), (Term.app "assign" [(Term.sym "values"), (Term.app ".pluck" [(Term.sym "self"), (Term.sym "key")])]), (Term.app "assign" [(Term.sym "values_real"), (Term.app "list()" [(Term.app "filter" [(Term.sym "None"), (Term.sym "values")])])]), (Term.app "assign" [(Term.sym "first"), (Term.app "ifexp" [(Term.sym "values_real"), (Term.app "getitem" [(Term.sym "values_real"), (Term.int (0 : Int))]), (Term.sym "None")])]), (Term.app "assign" [(Term.sym "total"), (Term.app "sum" [(Term.app "GeneratorExp" [(Term.app "sys.getsizeof" [(Term.sym "x")]), (Term.app "in" [(Term.sym "x"), (Term.sym "values"), (Term.app "if" [])])])])]), (Term.app "store" [(Term.app ".type" [(Term.sym "new")]), (Term.app ".__name__" [(Term.app ".__class__" [(Term.sym "first")])])]), (Term.app "store" [(Term.app ".item_size" [(Term.sym "new")]), (Term.app "int" [(Term.app "round" [(Term.app "Div" [(Term.sym "total"), (Term.app "len" [(Term.sym "values")])])])])]), (Term.app "store" [(Term.app ".total_size" [(Term.sym "new")]), (Term.sym "total")]), (Term.app "assign" [(Term.sym "mem"), (Term.app ".rbind" [(Term.sym "mem"), (Term.sym "new")])])]), (Term.app "init" [(Term.sym "mem"), mem'])]);
+  let new' : Term := (Term.app "value-after-loop" [(Term.sym "new"), eff0]);
+  let values' : Term := (Term.app "value-after-loop" [(Term.sym "values"), eff0]);
+  let values_real' : Term := (Term.app "value-after-loop" [(Term.sym "values_real"), eff0]);
+  let first' : Term := (Term.app "value-after-loop" [(Term.sym "first"), eff0]);
+  let total' : Term := (Term.app "value-after-loop" [(Term.sym "total"), eff0]);
+  let mem' : Term := (Term.app "value-after-loop" [(Term.sym "mem"), eff0]);
+  let new' : Term := (Term.app "DataFrame" [(Term.app "=key" [(Term.sym "'TOTAL'")])]);
+  let attr1_1' : Term := (Term.sym "'--'");
+  let eff1 : Term := (Term.app "setattr" [new', (Term.sym "type"), attr1_1']);
+  let attr2_1' : Term := (Term.app ".sum" [(Term.app ".item_size" [mem'])]);
+  let eff2 : Term := (Term.app "setattr" [new', (Term.sym "item_size"), attr2_1']);
+  let attr3_1' : Term := (Term.app ".sum" [(Term.app ".total_size" [mem'])]);
+  let eff3 : Term := (Term.app "setattr" [new', (Term.sym "total_size"), attr3_1']);
+  let mem' : Term := (Term.app ".rbind" [mem', new']);
+  let attr4_1' : Term := (Term.app "ListComp" [(Term.app "fstring" [(Term.app "format" [(Term.sym "x"), (Term.sym "f'.0f'"), (Term.int (-1 : Int))]), (Term.sym "' B'")]), (Term.app "in" [(Term.sym "x"), (Term.app ".item_size" [mem']), (Term.app "if" [])])]);
+  let eff4 : Term := (Term.app "setattr" [mem', (Term.sym "item_size"), attr4_1']);
+  let attr5_1' : Term := (Term.app "ListComp" [(Term.app "fstring" [(Term.app "format" [(Term.app "Div" [(Term.sym "x"), (Term.app "Pow" [(Term.int (1024 : Int)), (Term.int (2 : Int))])]), (Term.sym "f',.0f'"), (Term.int (-1 : Int))]), (Term.sym "' MB'")]), (Term.app "in" [(Term.sym "x"), (Term.app ".total_size" [mem']), (Term.app "if" [])])]);
+  let eff5 : Term := (Term.app "setattr" [mem', (Term.sym "total_size"), attr5_1']);
+  let attr6_1' : Term := (Term.app "ListComp" [(Term.app ".upper" [(Term.sym "x")]), (Term.app "in" [(Term.sym "x"), (Term.app ".colnames" [mem']), (Term.app "if" [])])]);
+  let eff6 : Term := (Term.app "setattr" [mem', (Term.sym "colnames"), attr6_1']);
+  let eff7 : Term := (Term.app "print" [mem']);
+  Out.fall [eff0, eff1, eff2, eff3, eff4, eff5, eff6, eff7]
+
+/-- the decorators of dataiter/list_of_dicts.py: ListOfDicts.print_memory_use, outermost first -/
+def ListOfDicts_print_memory_use_decorators : List String := []
+
+/-- the signature of dataiter/list_of_dicts.py: ListOfDicts.print_memory_use: parameters in order, with the source text of their defaults -/
+def ListOfDicts_print_memory_use_signature : List String := ["self"]
+
+/-- the calls of dataiter/list_of_dicts.py: ListOfDicts.print_memory_use in the order Python makes them along the source text -/
+def ListOfDicts_print_memory_use_call_order : List String := ["DataFrame", "self.keys", "DataFrame", "self.pluck", "filter", "list", "sys.getsizeof", "sum", "len", "round", "int", "mem.rbind", "DataFrame", "mem.item_size.sum", "mem.total_size.sum", "mem.rbind", "x.upper", "print"]
+
+/-- dataiter/list_of_dicts.py: ListOfDicts.print_na_counts (sha256 of the function source: b4313fbdd42647e5) -/
+def ListOfDicts_print_na_counts (truth : Term → Bool) : Out :=
+  let eff0 : Term := (Term.app "print" [(Term.sym "'Missing counts:'")]);
+  let eff1 : Term := (Term.app "for" [(Term.sym "key"), (Term.app ".keys" [(Term.sym "self")]), (Term.app "block" [(Term.app "assign" [(Term.sym "n"), (Term.app "sum" [(Term.app "GeneratorExp" [(Term.app "Is" [(Term.app ".get" [(Term.sym "x"), (Term.sym "key"), (Term.sym "None")]), (Term.sym "None")]), (Term.app "in" [(Term.sym "x"), (Term.sym "self"), (Term.app "if" [])])])])]), (Term.app "if" [(Term.app "Eq" [(Term.sym "n"), (Term.int (0 : Int))]), (Term.app "block" [(Term.sym "continue")]), (Term.app "block" [])]), (Term.app "assign" [(Term.sym "pc"), (Term.app "Div" [(Term.app "Mult" [(Term.int (100 : Int)), (Term.sym "n")]), (Term.app "len" [(Term.sym "self")])])]), (Term.app "print" [(Term.app "fstring" [(Term.sym "'... '"), (Term.app "format" [(Term.sym "key"), (Term.sym ""), (Term.int (-1 : Int))]), (Term.sym "': '"), (Term.app "format" [(Term.sym "n"), (Term.sym ""), (Term.int (-1 : Int))]), (Term.sym "' ('"), (Term.app "format" [(Term.sym "pc"), (Term.sym "f'.1f'"), (Term.int (-1 : Int))]), (Term.sym "'%)'")])])])]);
+  let n' : Term := (Term.app "value-after-loop" [(Term.sym "n"), eff1]);
+  let pc' : Term := (Term.app "value-after-loop" [(Term.sym "pc"), eff1]);
+  Out.fall [eff0, eff1]
+
+/-- the decorators of dataiter/list_of_dicts.py: ListOfDicts.print_na_counts, outermost first -/
+def ListOfDicts_print_na_counts_decorators : List String := []
+
+/-- the signature of dataiter/list_of_dicts.py: ListOfDicts.print_na_counts: parameters in order, with the source text of their defaults -/
+def ListOfDicts_print_na_counts_signature : List String := ["self"]
+
+/-- the calls of dataiter/list_of_dicts.py: ListOfDicts.print_na_counts in the order Python makes them along the source text -/
+def ListOfDicts_print_na_counts_call_order : List String := ["print", "self.keys", "x.get", "sum", "len", "print"]
+
+/-- dataiter/vector.py: Vector.__repr__ (sha256 of the function source: 9bfe44df73a572c4) -/
+def Vector_repr (truth : Term → Bool) : Out :=
+  Out.ret [] (Term.app ".to_string" [(Term.sym "self")])
+
+/-- the decorators of dataiter/vector.py: Vector.__repr__, outermost first -/
+def Vector_repr_decorators : List String := []
+
+/-- the signature of dataiter/vector.py: Vector.__repr__: parameters in order, with the source text of their defaults -/
+def Vector_repr_signature : List String := ["self"]
+
+/-- the calls of dataiter/vector.py: Vector.__repr__ in the order Python makes them along the source text -/
+def Vector_repr_call_order : List String := ["self.to_string"]
+
+/-- dataiter/vector.py: Vector.__str__ (sha256 of the function source: 611ecb642c6e3656) -/
+def Vector_str2 (truth : Term → Bool) : Out :=
+  Out.ret [] (Term.app ".to_string" [(Term.sym "self")])
+
+/-- the decorators of dataiter/vector.py: Vector.__str__, outermost first -/
+def Vector_str2_decorators : List String := []
+
+/-- the signature of dataiter/vector.py: Vector.__str__: parameters in order, with the source text of their defaults -/
+def Vector_str2_signature : List String := ["self"]
+
+/-- the calls of dataiter/vector.py: Vector.__str__ in the order Python makes them along the source text -/
+def Vector_str2_call_order : List String := ["self.to_string"]
+
+/-- dataiter/vector.py: Vector.dtype_label (sha256 of the function source: f79390e5d859888e) -/
+def Vector_dtype_label (truth : Term → Bool) : Out :=
+  if truth (Term.app ".is_string" [(Term.sym "self")]) then
+    Out.ret [] (Term.sym "'string'")
+  else
+    Out.ret [] (Term.app "str" [(Term.app ".dtype" [(Term.sym "self")])])
+
+/-- the decorators of dataiter/vector.py: Vector.dtype_label, outermost first -/
+def Vector_dtype_label_decorators : List String := ["property"]
+
+/-- the signature of dataiter/vector.py: Vector.dtype_label: parameters in order, with the source text of their defaults -/
+def Vector_dtype_label_signature : List String := ["self"]
+
+/-- the calls of dataiter/vector.py: Vector.dtype_label in the order Python makes them along the source text -/
+def Vector_dtype_label_call_order : List String := ["self.is_string", "str"]
+
+/-- dataiter/vector.py: Vector.to_string.add_string_element (sha256 of the function source: 0e6137066df8e8e9) -/
+def Vector_to_string_add_string_element (truth : Term → Bool) : Out :=
+  if truth (Term.app "LtE" [(Term.app "len" [(Term.app "getitem" [(Term.sym "rows"), (Term.int (-(1 : Int)))])]), (Term.int (1 : Int))]) then
+    Out.ret [] (Term.app ".append" [(Term.app "getitem" [(Term.sym "rows"), (Term.int (-(1 : Int)))]), (Term.sym "string")])
+  else
+    let row' : Term := (Term.app ".join" [(Term.sym "' '"), (Term.app "Add" [(Term.app "getitem" [(Term.sym "rows"), (Term.int (-(1 : Int)))]), (Term.app "list" [(Term.sym "string")])])]);
+    if truth (Term.app "Lt" [(Term.app "util.ulen" [row']), (Term.sym "print_width")]) then
+      Out.ret [] (Term.app ".append" [(Term.app "getitem" [(Term.sym "rows"), (Term.int (-(1 : Int)))]), (Term.sym "string")])
+    else
+      Out.ret [] (Term.app ".append" [(Term.sym "rows"), (Term.app "list" [(Term.sym "' '"), (Term.sym "string")])])
+
+/-- the decorators of dataiter/vector.py: Vector.to_string.add_string_element, outermost first -/
+def Vector_to_string_add_string_element_decorators : List String := []
+
+/-- the signature of dataiter/vector.py: Vector.to_string.add_string_element: parameters in order, with the source text of their defaults -/
+def Vector_to_string_add_string_element_signature : List String := ["string", "rows"]
+
+/-- the calls of dataiter/vector.py: Vector.to_string.add_string_element in the order Python makes them along the source text -/
+def Vector_to_string_add_string_element_call_order : List String := ["len", "rows[-1].append", "' '.join", "util.ulen", "rows[-1].append", "rows.append"]
+
+/-- dataiter/util.py: count_digits (sha256 of the function source: 9972f3d695e978dd) -/
+def util_count_digits (truth : Term → Bool) : Out :=
+  if truth (Term.app "np.isnan" [(Term.sym "value")]) then
+    Out.ret [] (Term.app "tuple" [(Term.int (0 : Int)), (Term.int (0 : Int))])
+  else
+    if truth (Term.app "math.isinf" [(Term.sym "value")]) then
+      Out.ret [] (Term.app "tuple" [(Term.int (0 : Int)), (Term.int (0 : Int))])
+    else
+      let parts' : Term := (Term.app ".split" [(Term.app "np.format_float_positional" [(Term.sym "value")]), (Term.sym "'.'")]);
+      let n' : Term := (Term.app "len" [(Term.app ".lstrip" [(Term.app "getitem" [parts', (Term.int (0 : Int))]), (Term.sym "'0'")])]);
+      let m' : Term := (Term.app "len" [(Term.app ".rstrip" [(Term.app "getitem" [parts', (Term.int (1 : Int))]), (Term.sym "'0'")])]);
+      Out.ret [] (Term.app "tuple" [n', m'])
+
+/-- the decorators of dataiter/util.py: count_digits, outermost first -/
+def util_count_digits_decorators : List String := []
+
+/-- the signature of dataiter/util.py: count_digits: parameters in order, with the source text of their defaults -/
+def util_count_digits_signature : List String := ["value"]
+
+/-- the calls of dataiter/util.py: count_digits in the order Python makes them along the source text -/
+def util_count_digits_call_order : List String := ["np.isnan", "math.isinf", "np.format_float_positional", "np.format_float_positional(value).split", "parts[0].lstrip", "len", "parts[1].rstrip", "len"]
+
+/-- dataiter/util.py: quote (sha256 of the function source: bcfb4e6915234b62) -/
+def util_quote (truth : Term → Bool) : Out :=
+  Out.ret [] (Term.app ".format" [(Term.sym "'\"{}\"'"), (Term.app ".replace" [(Term.app "str" [(Term.sym "value")]), (Term.sym "'\"'"), (Term.sym "'\\\\\"'")])])
+
+/-- the decorators of dataiter/util.py: quote, outermost first -/
+def util_quote_decorators : List String := []
+
+/-- the signature of dataiter/util.py: quote: parameters in order, with the source text of their defaults -/
+def util_quote_signature : List String := ["value"]
+
+/-- the calls of dataiter/util.py: quote in the order Python makes them along the source text -/
+def util_quote_call_order : List String := ["str", "str(value).replace", "'\"{}\"'.format"]
+
+/-- dataiter/util.py: get_print_width (sha256 of the function source: 5c51806a25379ade) -/
+def util_get_print_width (truth : Term → Bool) : Out :=
+  Out.ret [] (Term.app "Sub" [(Term.app "getitem" [(Term.app "shutil.get_terminal_size" [(Term.app "tuple" [(Term.sym "dataiter.PRINT_MAX_WIDTH"), (Term.int (24 : Int))])]), (Term.int (0 : Int))]), (Term.int (1 : Int))])
+
+/-- the decorators of dataiter/util.py: get_print_width, outermost first -/
+def util_get_print_width_decorators : List String := []
+
+/-- the signature of dataiter/util.py: get_print_width: parameters in order, with the source text of their defaults -/
+def util_get_print_width_signature : List String := []
+
+/-- the calls of dataiter/util.py: get_print_width in the order Python makes them along the source text -/
+def util_get_print_width_call_order : List String := ["shutil.get_terminal_size"]
+
+/-- dataiter/geojson.py: GeoJSON.to_string (sha256 of the function source: 68996a033ba20418) -/
+def GeoJSON_to_string (truth : Term → Bool) : Out :=
+  if truth (Term.app "In" [(Term.sym "'geometry'"), (Term.app ".colnames" [(Term.sym "self")])]) then
+    let geometry' : Term := (Term.app "ListComp" [(Term.app "ifexp" [(Term.sym "x"), (Term.app "fstring" [(Term.sym "'<'"), (Term.app "format" [(Term.app "getitem" [(Term.sym "x"), (Term.sym "'type'")]), (Term.sym ""), (Term.int (-1 : Int))]), (Term.sym "'>'")]), (Term.app "str" [(Term.sym "x")])]), (Term.app "in" [(Term.sym "x"), (Term.app ".geometry" [(Term.sym "self")]), (Term.app "if" [])])]);
+    let self' : Term := (Term.app ".copy" [(Term.sym "self")]);
+    let eff0 : Term := (Term.app "store" [(Term.app "getitem" [self', (Term.sym "'geometry'")]), (Term.app "Vector.fast" [geometry', (Term.sym "object")])]);
+    Out.ret [eff0] (Term.app "DataFrame.to_string" [self', (Term.app "=max_rows" [(Term.sym "max_rows")]), (Term.app "=max_width" [(Term.sym "max_width")]), (Term.app "=truncate_width" [(Term.sym "truncate_width")])])
+  else
+    Out.ret [] (Term.app "DataFrame.to_string" [(Term.sym "self"), (Term.app "=max_rows" [(Term.sym "max_rows")]), (Term.app "=max_width" [(Term.sym "max_width")]), (Term.app "=truncate_width" [(Term.sym "truncate_width")])])
+
+/-- the decorators of dataiter/geojson.py: GeoJSON.to_string, outermost first -/
+def GeoJSON_to_string_decorators : List String := []
+
+/-- the signature of dataiter/geojson.py: GeoJSON.to_string: parameters in order, with the source text of their defaults -/
+def GeoJSON_to_string_signature : List String := ["self", "*", "max_rows=None", "max_width=None", "truncate_width=None"]
+
+/-- the calls of dataiter/geojson.py: GeoJSON.to_string in the order Python makes them along the source text -/
+def GeoJSON_to_string_call_order : List String := ["str", "self.copy", "Vector.fast", "DataFrame.to_string"]
+
 end DI.Gen
